@@ -151,6 +151,34 @@ impl ElemT for T12 {
     fn val(&self) -> u64 { self.0[2] as u64 }
     fn set_val(&mut self, v: u64) { chk_align(self, "T12"); self.0[2] = v as u32 }
 }
+/// elements LARGER than a group with a small alignment: 17 bytes (align 1), 18 bytes (align 2) -- the
+/// element area of a 4- or 8-bucket table is then no multiple of the group width
+#[derive(Clone, Copy)]
+pub struct T17([u8; 17]);
+impl ElemT for T17 {
+    const DROP: bool = false;
+    const HAS_VAL: bool = true;
+    fn mk(id: u64, s: u64, v: u64) -> Self {
+        let mut b = [0u8; 17];
+        b[0] = id as u8; b[1] = (id >> 8) as u8; b[2] = s as u8; b[3] = (s >> 8) as u8; b[15] = v as u8; b[16] = (v >> 8) as u8;
+        T17(b)
+    }
+    fn id(&self) -> u64 { self.0[0] as u64 | (self.0[1] as u64) << 8 }
+    fn stamp(&self) -> u64 { self.0[2] as u64 | (self.0[3] as u64) << 8 }
+    fn val(&self) -> u64 { self.0[15] as u64 | (self.0[16] as u64) << 8 }
+    fn set_val(&mut self, v: u64) { self.0[15] = v as u8; self.0[16] = (v >> 8) as u8 }
+}
+#[derive(Clone, Copy)]
+pub struct T18([u16; 9]);
+impl ElemT for T18 {
+    const DROP: bool = false;
+    const HAS_VAL: bool = true;
+    fn mk(id: u64, s: u64, v: u64) -> Self { let mut b = [0u16; 9]; b[0] = id as u16; b[1] = s as u16; b[8] = v as u16; T18(b) }
+    fn id(&self) -> u64 { chk_align(self, "T18"); self.0[0] as u64 }
+    fn stamp(&self) -> u64 { self.0[1] as u64 }
+    fn val(&self) -> u64 { self.0[8] as u64 }
+    fn set_val(&mut self, v: u64) { chk_align(self, "T18"); self.0[8] = v as u16 }
+}
 /// zero-sized element
 #[derive(Clone, Copy)]
 pub struct Tz;
@@ -571,6 +599,26 @@ fn do_op<T: ElemT>(m: &mut Tab<T>, w: &[&str], chk: &mut Vec<String>, held: &mut
         }
         "titerhash" => {
             let h = plan_hash(n(1));
+            // every reference handed out must point to a slot that holds a live element, each slot at
+            // most once, and there cannot be more of them than len() (C02 / C05 / C09)
+            if std::mem::size_of::<T>() > 0 {
+                let d = m.verif_dump();
+                let live: Vec<usize> = (0..=d.bucket_mask).filter(|&i| d.bucket_mask != 0 && m.verif_bucket(i).is_some()).map(|i| m.verif_bucket_addr(i)).collect();
+                let mut seen: Vec<usize> = Vec::new();
+                // addresses only (no read through a possibly dangling reference), and a bounded walk
+                for e in m.iter_hash(h).take(4 * (d.bucket_mask + 2)) {
+                    let a = e as *const T as usize;
+                    if !live.contains(&a) {
+                        chk.push("iter_hash handed out a reference to a slot that holds no live element (red zone of the ownership discipline)".into());
+                        return "list ?".into();
+                    }
+                    if seen.contains(&a) {
+                        chk.push("iter_hash handed out two references to one slot".into());
+                        return "list ?".into();
+                    }
+                    seen.push(a);
+                }
+            }
             let v: Vec<String> = m.iter_hash(h).map(|e| et(e)).collect();
             let v2: Vec<String> = m.iter_hash_mut(h).map(|e| et(e)).collect();
             if v != v2 {
